@@ -7,6 +7,7 @@ import (
 	"slices"
 	"sort"
 	"strconv"
+	"strings"
 	"ti/base"
 	"ti/builtin"
 	"ti/eval"
@@ -473,7 +474,7 @@ func printAllClasses() {
 }
 
 func printDefinitionTarget(frame, class string) {
-	fmt.Println(prefixDefinitionTarget + frame + separator + class)
+	fmt.Println(oneLine(prefixDefinitionTarget + frame + separator + class))
 }
 
 func printMatchingSignatures(p parser.Parser) {
@@ -500,7 +501,12 @@ func printSignature(sig base.Sig) {
 		sig.FileName + separator +
 		strconv.Itoa(sig.Row)
 
-	fmt.Println(line)
+	fmt.Println(oneLine(line))
+}
+
+// a record is one line: a name taken from a string literal may contain newlines
+func oneLine(record string) string {
+	return strings.ReplaceAll(record, "\n", "\\n")
 }
 
 func printInheritance(child, parent base.ClassNode) {
@@ -510,12 +516,12 @@ func printInheritance(child, parent base.ClassNode) {
 		parent.Frame + separator +
 		parent.Class
 
-	fmt.Println(line)
+	fmt.Println(oneLine(line))
 }
 
 func printSuggestion(contents, detail string, document string) {
 	fmt.Println(
-		prefixSignature + contents + separator + detail + separator + document,
+		oneLine(prefixSignature + contents + separator + detail + separator + document),
 	)
 }
 
